@@ -212,9 +212,12 @@ Proof.
   - apply IH; assumption.
 Qed.
 
-(** Inside a word: literals with the same text carry the same label. *)
+(** Inside a word: literals with the same text carry the same label, a command is expected under
+    one level, nothing follows an undefined nonterminal. *)
 Definition wpoint_decl (mv : list (wleaf * rx wleaf)) : Prop :=
-  forall t d l d' l' k k', In (WLit t d l, k) mv -> In (WLit t d' l', k') mv -> d = d' /\ l = l'.
+  (forall t d l d' l' k k', In (WLit t d l, k) mv -> In (WLit t d' l', k') mv -> d = d' /\ l = l')
+  /\ (forall c l l' k k', In (WCmd c l, k) mv -> In (WCmd c l', k') mv -> l = l')
+  /\ (forall k, In (WAny, k) mv -> eps_only k = true).
 
 Definition sub_lang (x : rx wleaf) (w : string) : Prop := tacc (rx wleaf) wnext nullable x w.
 
@@ -227,15 +230,24 @@ Definition point_decl (mv : list (leaf * rx leaf)) : Prop :=
 
 Lemma wpoint_ok_decl mv : wpoint_ok mv = true -> wpoint_decl mv.
 Proof.
-  intros H t d l d' l' k k' H1 H2. unfold wpoint_ok in H.
-  assert (I1 : In (WLit t d l) (map fst mv)) by (apply in_map_iff; exists (WLit t d l, k); split; [reflexivity | assumption]).
-  assert (I2 : In (WLit t d' l') (map fst mv)) by (apply in_map_iff; exists (WLit t d' l', k'); split; [reflexivity | assumption]).
-  destruct (all_pairs_spec _ _ H _ _ I1 I2) as [E | [E | E]].
-  - inversion E; subst. split; reflexivity.
-  - rewrite String.eqb_refl in E. cbn in E. apply andb_true_iff in E. destruct E as [Ed El].
-    apply option_eqb_str_sound in Ed. apply N.eqb_eq in El. split; assumption.
-  - rewrite String.eqb_refl in E. cbn in E. apply andb_true_iff in E. destruct E as [Ed El].
-    apply option_eqb_str_sound in Ed. apply N.eqb_eq in El. split; symmetry; assumption.
+  intro H0. unfold wpoint_ok in H0. apply andb_true_iff in H0. destruct H0 as [H Hany]. split; [| split].
+  - intros t d l d' l' k k' H1 H2.
+    assert (I1 : In (WLit t d l) (map fst mv)) by (apply in_map_iff; exists (WLit t d l, k); split; [reflexivity | assumption]).
+    assert (I2 : In (WLit t d' l') (map fst mv)) by (apply in_map_iff; exists (WLit t d' l', k'); split; [reflexivity | assumption]).
+    destruct (all_pairs_spec _ _ H _ _ I1 I2) as [E | [E | E]].
+    + inversion E; subst. split; reflexivity.
+    + rewrite String.eqb_refl in E. cbn in E. apply andb_true_iff in E. destruct E as [Ed El].
+      apply option_eqb_str_sound in Ed. apply N.eqb_eq in El. split; assumption.
+    + rewrite String.eqb_refl in E. cbn in E. apply andb_true_iff in E. destruct E as [Ed El].
+      apply option_eqb_str_sound in Ed. apply N.eqb_eq in El. split; symmetry; assumption.
+  - intros c l l' k k' H1 H2.
+    assert (I1 : In (WCmd c l) (map fst mv)) by (apply in_map_iff; exists (WCmd c l, k); split; [reflexivity | assumption]).
+    assert (I2 : In (WCmd c l') (map fst mv)) by (apply in_map_iff; exists (WCmd c l', k'); split; [reflexivity | assumption]).
+    destruct (all_pairs_spec _ _ H _ _ I1 I2) as [E | [E | E]].
+    + inversion E; subst. reflexivity.
+    + rewrite String.eqb_refl in E. cbn in E. apply N.eqb_eq in E. exact E.
+    + rewrite String.eqb_refl in E. cbn in E. apply N.eqb_eq in E. symmetry. exact E.
+  - intros k Hin. rewrite forallb_forall in Hany. apply (Hany (WAny, k) Hin).
 Qed.
 
 Lemma rx_wleaf_eqb_sound a b : rx_eqb wleaf_eqb a b = true -> a = b.
@@ -343,7 +355,12 @@ Definition in_domain (e : expr) : Prop :=
   /\ forall s, reach same_item (start e) s -> point_decl (mvs s).
 
 Lemma wpoint_decl_ext mv mv' : (forall ak, In ak mv <-> In ak mv') -> wpoint_decl mv -> wpoint_decl mv'.
-Proof. intros H P t d l d' l' k k' H1 H2. apply (P t d l d' l' k k'); apply H; assumption. Qed.
+Proof.
+  intros H [P1 [P2 P3]]. split; [| split].
+  - intros t d l d' l' k k' H1 H2. apply (P1 t d l d' l' k k'); apply H; assumption.
+  - intros c l l' k k' H1 H2. apply (P2 c l l' k k'); apply H; assumption.
+  - intros k H1. apply P3. apply H. exact H1.
+Qed.
 
 Lemma point_decl_ext mv mv' : (forall ak, In ak mv <-> In ak mv') -> point_decl mv -> point_decl mv'.
 Proof.
